@@ -373,6 +373,12 @@ func drawWireTerm(t *rapid.T, tableLen int, depth int, allowVar bool) wire.Term 
 		if c10Invalid && rapid.IntRange(0, 9).Draw(t, "wt.nested") == 0 {
 			st.Set = append(st.Set, wire.Term{K: wire.TSet, Set: []wire.Term{{K: wire.TInt, I: 1}}})
 		}
+		if c10Invalid && rapid.IntRange(0, 2).Draw(t, "wt.hollow") == 0 {
+			// every element is a term message without content (all of the same "type": none)
+			for i := range st.Set {
+				st.Set[i] = wire.Term{K: wire.TNone}
+			}
+		}
 		return st
 	default:
 		if c10Invalid && rapid.IntRange(0, 9).Draw(t, "wt.none") == 0 {
@@ -560,6 +566,23 @@ func signHostile(t *rapid.T, n uint64, blocks [][]byte) ([]byte, string) {
 	case 6:
 		id := rapid.SampledFrom([]uint32{0, 1, 1<<32 - 1}).Draw(t, "env.id")
 		env.RootKeyID = &id
+	case 7, 8:
+		// the last block announces a key of another size and is signed consistently with it, so the
+		// chain walk reaches the closing proof
+		last := len(blocks) - 1
+		l := rapid.SampledFrom([]int{0, 31, 33, 64}).Draw(t, "env.lastkeylen")
+		k := make([]byte, l)
+		copy(k, nth(env, last).NextKey)
+		signer := apriv
+		if last > 0 {
+			_, signer, _ = attackerKey((n+500)*1000 + uint64(last-1))
+		}
+		nth(env, last).NextKey = k
+		nth(env, last).Signature = signPayload(signer, nth(env, last).Block, 0, k)
+		if !env.Proof.HasFinal {
+			env.Proof = wire.Proof{HasFinal: true, Final: make([]byte, 64)}
+		}
+		desc = fmt.Sprintf("sealed, last announced key of %d bytes with a valid signature over it", l)
 	}
 	return env.Encode(), desc
 }
@@ -627,7 +650,7 @@ func TestC10(t *testing.T) {
 	rec := obs.New("C10")
 	defer rec.Flush(true)
 	defer func() { c10W.stop() }()
-	rec.SetExtra("rule", "rapid, three layers. struct (70 %): 1-3 schema-shaped blocks written with the independent writer and validly signed under an attacker-chosen root, with hostile fields: symbol / variable / predicate indexes from {0,27,28,1023,1024,1024+len,2^31,2^32-1,2^32,2^63,2^64-1}, sets of byte arrays / nested / empty / mixed, variables in facts, unbound head variables, arity 0 and 64, operator sequences that under- and overflow the stack, unknown operator codes, absent required fields, duplicate and default symbols in tables, invalid regular expressions among the table strings, operations between sets of sizes {1,2,3,8,9,12} and different element types and between two table strings (in expression-only rules, so they are evaluated), odd versions; envelope hostility: next secret of 0/3/31/33/64 bytes, key and signature sizes, algorithm values, missing proof. mutate (20 %): bit flips, truncation, splice, self-concatenation of a valid token. bytes (10 %): random bytes. Every case runs in a worker process: Unmarshal, then String, Code, Serialize, RevocationIds, RootKeyID, BlockCount, Checks, GetContext, GetBlockID, CreateBlock+Build+Append, Seal, AuthorizerFor under the attacker root / another key / key maps with and without default key, empty and nil maps, projections that answer nothing or fail, a nil key source, Authorizer, Authorize, Query, PrintWorld, Reset, SerializePolicies, LoadPolicies. Violation = recovered panic or death of the worker. Non-trivial = the token unmarshals and its chain verifies under the attacker root, so evaluation is reached; distinct by (bytes, authorizer).")
+	rec.SetExtra("rule", "rapid, three layers. struct (70 %): 1-3 schema-shaped blocks written with the independent writer and validly signed under an attacker-chosen root, with hostile fields: symbol / variable / predicate indexes from {0,27,28,1023,1024,1024+len,2^31,2^32-1,2^32,2^63,2^64-1}, sets of byte arrays / nested / empty / mixed / of content-less terms, variables in facts, unbound head variables, arity 0 and 64, operator sequences that under- and overflow the stack, unknown operator codes, absent required fields, duplicate and default symbols in tables, invalid regular expressions among the table strings, operations between sets of sizes {1,2,3,8,9,12} and different element types and between two table strings (in expression-only rules, so they are evaluated), odd versions; envelope hostility: next secret of 0/3/31/33/64 bytes, key and signature sizes (also a last announced key of another size with a valid signature over it, sealed), algorithm values, missing proof. mutate (20 %): bit flips, truncation, splice, self-concatenation of a valid token. bytes (10 %): random bytes. Every case runs in a worker process: Unmarshal, then String, Code, Serialize, RevocationIds, RootKeyID, BlockCount, Checks, GetContext, GetBlockID, CreateBlock+Build+Append, Seal, AuthorizerFor under the attacker root / another key / key maps with and without default key, empty and nil maps, projections that answer nothing or fail, a nil key source, Authorizer, Authorize, Query, PrintWorld, Reset, SerializePolicies, LoadPolicies. Violation = recovered panic or death of the worker. Non-trivial = the token unmarshals and its chain verifies under the attacker root, so evaluation is reached; distinct by (bytes, authorizer).")
 	rec.SetExtra("assumptions", []string{"a worker that exceeds 20 s is inconclusive, not a violation (boundedness is C11's subject)", "evaluation limits for hostile programs: 150 ms, 400 facts, 30 iterations"})
 	harness.RunWith(t, harness.Spec[C10Case]{ID: "C10", Draw: drawC10, Check: checkC10}, rec)
 }
